@@ -27,12 +27,12 @@ import (
 type Expr interface{}
 
 type (
-	EIdent  struct{ Name string }
-	EInt    struct{ V string }
-	EStr    struct{ V string }
-	EBool   struct{ V bool }
-	ENil    struct{}
-	EUnary  struct {
+	EIdent struct{ Name string }
+	EInt   struct{ V string }
+	EStr   struct{ V string }
+	EBool  struct{ V bool }
+	ENil   struct{}
+	EUnary struct {
 		Op string
 		X  Expr
 	}
@@ -80,43 +80,43 @@ type LoopSpec struct {
 	CountName  string // name for completed iterations of a range loop
 	Invariants []Clause
 	Decreases  *Clause
-	Unroll     int // bounded stand-in: unroll this many iterations (with an unwinding assertion)
+	Unroll     int      // bounded stand-in: unroll this many iterations (with an unwinding assertion)
 	Asserts    []Clause // checked once, in the state in which the loop is entered
 }
 
 type FuncSpec struct {
-	Pkg      string // package path
-	Key      string // e.g. "CompareAscending", "(*below).CompareTo", "Outer$1"
-	Params   []string
-	Results  []string
-	Props    []string
+	Pkg          string // package path
+	Key          string // e.g. "CompareAscending", "(*below).CompareTo", "Outer$1"
+	Params       []string
+	Results      []string
+	Props        []string
 	SectionProps []string            // the properties of the section the contract stands in
 	ClauseProps  map[string][]string // clause label -> properties it serves (label written as [name@C01+C04])
-	Requires []Clause
-	Ensures  []Clause
-	OnSend   []SendClause // step contracts: must hold for every value sent on the named channel
-	OnRecv     []SendClause // assumptions about received values, keyed by element type
-	OnMapStore []SendClause // step contracts at m[key] = val on the named map
-	OnDelete []SendClause // step contracts at delete(m, key) on the named map (Chan holds the map's name or Type.field)
-	Trusts   []Clause // postconditions assumed at call sites but not checked against the body (listed as assumptions)
-	Loops    map[int]*LoopSpec
-	Lets     []LetSpec
-	Inline   bool
-	Trusted  bool // contract assumed, body not verified
-	NoVerify bool
-	Pure     bool
-	Modifies []string // heap component patterns; nil = unspecified (derive), ["nothing"]
-	HasMod   bool
-	Replay   *ReplaySpec
-	Replays  map[string]*ReplaySpec // per clause label
-	Track    []string
-	Asserts  map[string][]Clause // at call sites: "call <callee>" -> clauses
-	Mode     string            // SEQ (default) or INT
-	File     string
-	Line     int
-	Bounded  string
-	Unroll   int
-	Options  map[string]string
+	Requires     []Clause
+	Ensures      []Clause
+	OnSend       []SendClause // step contracts: must hold for every value sent on the named channel
+	OnRecv       []SendClause // assumptions about received values, keyed by element type
+	OnMapStore   []SendClause // step contracts at m[key] = val on the named map
+	OnDelete     []SendClause // step contracts at delete(m, key) on the named map (Chan holds the map's name or Type.field)
+	Trusts       []Clause     // postconditions assumed at call sites but not checked against the body (listed as assumptions)
+	Loops        map[int]*LoopSpec
+	Lets         []LetSpec
+	Inline       bool
+	Trusted      bool // contract assumed, body not verified
+	NoVerify     bool
+	Pure         bool
+	Modifies     []string // heap component patterns; nil = unspecified (derive), ["nothing"]
+	HasMod       bool
+	Replay       *ReplaySpec
+	Replays      map[string]*ReplaySpec // per clause label
+	Track        []string
+	Asserts      map[string][]Clause // at call sites: "call <callee>" -> clauses
+	Mode         string              // SEQ (default) or INT
+	File         string
+	Line         int
+	Bounded      string
+	Unroll       int
+	Options      map[string]string
 }
 
 type SendClause struct {
@@ -163,13 +163,14 @@ type TypeSpec struct {
 }
 
 type CallbackSpec struct {
-	Pkg      string
-	Name     string // func type name or "Type.field"
-	Pure     bool
-	Closed   bool // every value of this function type is created by the module's own constructors
-	Writes   []int // indices of message arguments the callback may write (their abstract content becomes unknown)
-	Modifies []string
-	Props    []string
+	Pkg          string
+	Name         string // func type name or "Type.field"
+	Pure         bool
+	Closed       bool  // every value of this function type is created by the module's own constructors
+	Writes       []int // indices of message arguments the callback may write (their abstract content becomes unknown)
+	ValueOrError bool  // for a (value, error) result: the value is non-nil whenever the error is nil (assumed, listed)
+	Modifies     []string
+	Props        []string
 }
 
 type SpecFunc struct {
@@ -379,6 +380,8 @@ func (ss *SpecSet) parseFile(file, pkg, src string) error {
 					cb.Pure = true
 				case "closed":
 					cb.Closed = true
+				case "value-or-error":
+					cb.ValueOrError = true
 				case "writes":
 					// writes arg 1, arg 2
 					for _, m := range strings.Split(r, ",") {
@@ -885,7 +888,7 @@ func ParseExpr(s string) (Expr, error) {
 type parseErr string
 
 func (p *parser) peek() tok { return p.toks[p.pos] }
-func (p *parser) next() tok  { t := p.toks[p.pos]; p.pos++; return t }
+func (p *parser) next() tok { t := p.toks[p.pos]; p.pos++; return t }
 func (p *parser) isOp(s string) bool {
 	t := p.peek()
 	return t.kind == "op" && t.s == s
